@@ -50,6 +50,12 @@ def _dfas(basis):
         }
         if len(P) == 1:
             routes["perm"] = PW.make_dfa_for_perm(P[0])
+        if len(P) >= 3:
+            # listing orders with interleaved lengths
+            by_len = sorted(P, key=lambda q: (len(q), tuple(q)))
+            zigzag = [by_len[i // 2] if i % 2 == 0 else by_len[-1 - i // 2] for i in range(len(by_len))]
+            routes["basis_zigzag"] = PW.make_dfa_for_basis(zigzag)
+            routes["from_db_desc"] = PW.make_dfa_for_basis(list(reversed(by_len)), use_db=True)
         if len(_DFA) > 300:
             _DFA.clear()
         _DFA[key] = routes
